@@ -182,6 +182,14 @@ func (e *Env) RoundErr() (changed bool, failed int) {
 	return e.W.Store.Seq() != before || e.W.Target.Seq() != beforeT, failed
 }
 
+// Disarm drops pending one-shot faults and interposed actions (disturbances stop).
+func (e *Env) Disarm() {
+	if len(e.armed) > 0 {
+		e.Logf("dropping %d pending armed faults before settling", len(e.armed))
+		e.armed = nil
+	}
+}
+
 // Quiesce: fair rounds until a whole round commits nothing and no pass failed. Returns rounds used and whether it converged.
 func (e *Env) Quiesce(max int) (int, bool) {
 	// disturbances stop here: pending one-shot faults and interposed actions are dropped
